@@ -678,6 +678,9 @@ def gen_edit(rng, circ, malformed=False, allow_measz=True, max_regs=6, label_poo
             a, b = rng.sample(qregs, 2)
             if rng.random() < 0.06 and regs[b[0]] < max_regs:
                 b = (b[0], regs[b[0]])
+            elif rng.random() < 0.03 and regs[a[0]] + 1 < max_regs:
+                # both operands on new registers, given in descending order (valid: add() sorts before creating them)
+                a, b = (a[0], regs[a[0]] + 1), (a[0], regs[a[0]])
             return ("A", two_q_token(rng.choice(TWO_Q[:2] if rng.random() < 0.9 else TWO_Q), a, b))
         if v < 0.95 and len(qregs) >= 2:
             a, b = rng.sample(qregs, 2)
